@@ -73,8 +73,9 @@ PROPS = {
         "assumptions": ["templates of the generated family use no time/random functions (now, randAlpha, uuidv4, genCA ... are classified non-deterministic by design and excluded)"],
     },
     "C20": {
-        "corr": [("crash", {"quick": 500, "thorough": 20000}), ("strvals", {"quick": 1500, "thorough": 30000}), ("storage", {"quick": 300, "thorough": 5000}), ("index", {"quick": 400, "thorough": 8000}), ("manifests", {"quick": 300, "thorough": 6000})],
+        "corr": [("crash", {"quick": 500, "thorough": 20000}), ("strvals", {"quick": 1500, "thorough": 30000}), ("storage", {"quick": 300, "thorough": 5000}), ("index", {"quick": 400, "thorough": 8000}), ("manifests", {"quick": 300, "thorough": 6000}), ("recursion", {"quick": 120, "thorough": 2500})],
         "trusted_base": [
+            "template recursion: the guard of include/tpl (a counter per template name and one for tpl, shared by every closure of a render) is modelled as a call tree over finitely many counters with the Go stack as fuel; text/template itself, what templates print besides their calls, and `define`s made inside tpl texts are outside the model; the limit and the sharing of the counters are regenerated from engine.go",
             "entry points whose parsing is a library (YAML, JSON, tar/gzip, OpenPGP, text/template, jsonschema) have no Lean model: for them the correspondence is robustness testing under recover + watchdog, labelled so; modelled panic sites: strvals type assertions (with their recover), Secrets/ConfigMaps Get on undecodable records, nil index entries, import-values type assertions",
         ],
         "assumptions": ["hang = no return within 20 s"],
